@@ -8,13 +8,13 @@ claimed = {
          "E2 must-call + leaf-liveness over the SSA origin/dependency analysis", "§4 C01"),
  "C02": ("partial (level other): W3 alignment of every constant width reaching the range primitive and, for every common_circuit_data.json in the repository, of 64-ProofOfWorkBits; C06's dispatch/constructor obligations (no backend skips or mis-selects checks); W2 honest-fit of the reduction sites by interval evaluation where the engine can bound them. Acceptance of concrete proofs is not decided (needs evaluation).",
          "interprocedural constant propagation of widths + enum-dispatch path analysis + interval bounds", "§4 C02"),
- "C03": ("strong structural claim (level other): in CircuitFixed.Define every limb packed into a public value is, by the same slice element, the argument of a must-executed n-bit range check with 2^n ≤ the packing multiplier (evaluated as a linear form), all 4×4 limbs are covered under the refusal guard len==16, each public value is asserted equal to its packed form, and the packed bound is < 2^128.",
+ "C03": ("strong structural claim (level other): in CircuitFixed.Define every limb packed into a public value is, by the same slice element, the argument of a must-executed n-bit range check with 2^n ≤ the packing multiplier (evaluated as a linear form), all 4×4 limbs are covered under the refusal guard len==16, each public value is asserted equal to its packed form, and the packed bound is < 2^128; plus C06 (the width checks are live in every backend: dispatch, deferred drain, the collecting chip is never updated through a copy).",
          "linear-form evaluation of the packing expression + must-execute/loop-coverage analysis", "§4 C03"),
  "C04": ("strong structural claim (level other): for every type implementing frontend.Circuit whose Define reaches VerifierChip.Verify, the verifier-data argument originates from a field whose gnark visibility (struct tag parsed as gnark's schema walker does) is '-' (build-time constant) or public; a secret field is accepted only if pinned leaf-by-leaf to a constant field.",
          "struct-tag / origin analysis over go/types + SSA", "§4 C04"),
  "C05": ("R1 hint discipline for every NewHint site + W1 no-wrap of each tying equality per reaching quotient width + W3 + C06 (level other). Decides uniqueness of witnessed results structurally; operand magnitudes at every reduction site (W2) only where listed.",
          "must-execute + origin analysis of hint outputs; polynomial bound evaluation; interprocedural constant propagation", "§4 C05"),
- "C06": ("strong structural claim (level other): enum-dispatch path analysis for every RangeCheckerType constant, constructor paths (Defer iff COMMIT, installed checker matches kind, selector conditions), drain coverage and alignment refusals, bit-decomposition width, RangeCheck limb rules (linear forms). Ranges are not evaluated numerically.",
+ "C06": ("strong structural claim (level other): enum-dispatch path analysis for every RangeCheckerType constant, constructor paths (Defer iff COMMIT, every kind whose checks are collected has its drain deferred, installed checker matches kind, selector conditions), the chip owning the collected checks is never updated through a copy (value receivers / dereferences located on the SSA), drain coverage and alignment refusals, bit-decomposition width, RangeCheck limb rules (linear forms). Ranges are not evaluated numerically.",
          "CFG path analysis per enum constant + linear-form evaluation + loop coverage", "§4 C06"),
  "C07": ("narrow structural clauses only (level other): zero branch of Inverse, Reduce's constant width ≥144 from a never-reassigned global, every reducing method returns a canonically range-checked hint output; MulAcc accumulator discipline (owned and dead after the call) at every MulAcc site of the goldilocks package, so results do not depend on the R1CS builder re-using storage. Numerical exactness is not decided.",
          "expression-shape matching + origin analysis + ownership/liveness analysis of MulAcc accumulators", "§4 C07 / §10.8"),
@@ -24,7 +24,7 @@ claimed = {
          "origin analysis + constant-table comparison from type-checked syntax", "§4 C09"),
  "C10": ("narrow structural clauses only (level other): the injectivity half of the property — limb packing in HashNoPad/HashOrNoop is Σ limb_k·base^k with constant base ≥ 2^64, exponent = limb index, bounded limb count with base^T ≤ r; ToVec chunks the canonical decomposition into consecutive disjoint ≤63-bit chunks; MulAcc accumulator discipline at every MulAcc site of the poseidon package (builder-independent results). Numeric agreement of the BN254 Poseidon permutation/sponge/shortcut with the reference PoseidonBN128 is NOT decided (no sound static argument in reach).",
          "recurrence extraction from SSA phis + constant evaluation of package initialisers + slice-bound reasoning + ownership/liveness analysis of MulAcc accumulators", "§4 C10 / §10.6 / §10.8"),
- "C11": ("order + binding (level other): the observe/squeeze events of GetChallenges∘GetFriChallenges are totally ordered in plonky2's reference order, openings observed in content order, every transcript-bound leaf observed with full coverage, ObserveElement clears the output buffer. The sponge arithmetic over arbitrary histories is not decided.",
+ "C11": ("order + binding (level other): the observe/squeeze events of GetChallenges∘GetFriChallenges are totally ordered in plonky2's reference order, openings observed in content order, every transcript-bound leaf observed with full coverage, ObserveElement clears the output buffer, the challenger is never updated through a copy. The sponge arithmetic over arbitrary histories is not decided.",
          "event-sequence extraction over the SSA CFG (dominance order) + content-sequence analysis", "§4 C11"),
  "C12": ("presence / coverage / provenance (level other) of the Merkle equalities for initial and commit-phase trees, index-bit provenance, caps order. Left/right ordering and lookup arithmetic are test-pinned, not claimed.",
          "must-execute + dependency + loop-coverage analysis", "§4 C12"),
